@@ -23,7 +23,7 @@ ASSUMPTIONS = [
 
 SUBCLASSES = {'LookupError': ['KeyError', 'IndexError'], 'ArithmeticError': ['ZeroDivisionError'],
               'ValueError': ['SimValueSub'], 'RuntimeError': ['RecursionError']}
-TB_KINDS_ALL = ['tb', 'tb', 'tbstack', 'tbbare', 'tbell', 'tbwrongmsg', 'tbwrongtype', 'tbdetail', 'tbdots', 'tbdots',
+TB_KINDS_ALL = ['tb', 'tb', 'tbstack', 'tbbare', 'tbell', 'tbell2', 'tbwrongmsg', 'tbwrongtype', 'tbdetail', 'tbdots', 'tbdots',
                 'tbdotssuffix', 'tbdotsonly']
 FLAGSETS = [[], [], [], [['+', 'IGNORE_EXCEPTION_DETAIL', None]], [['-', 'ELLIPSIS', None]],
             [['+', 'IGNORE_WANT', None]], [['+', 'IGNORE_EXCEPTION_DETAIL', None], ['-', 'ELLIPSIS', None]]]
@@ -75,12 +75,19 @@ def generate(rng, tier):
     defaults = None
     if rng.random() < 0.15:
         defaults = rng.choice([{'IGNORE_EXCEPTION_DETAIL': True}, {'ELLIPSIS': False}, {'IGNORE_WANT': True}])
-    for d in ids[:rng.randint(1, 3)]:
-        op = {'op': 'run_obj', 'dt': d, 'verbose': rng.choice([0, 0, 1, 3]),
-              'on_error': rng.choice(['return', 'return', 'raise'])}
-        if defaults:
-            op['config'] = {'default_runtime_state': defaults}
+    if rng.random() < 0.2:
+        # the native runner hands one configuration to every doctest of the module: flags a
+        # doctest switches on for itself are not the next doctest's flags
+        op = {'op': 'runner', 'target': world['modules'][0]['relpath'], 'command': 'all', 'verbose': rng.choice([0, 1, 3]),
+              'config': {'default_runtime_state': dict(defaults or {'NORMALIZE_WHITESPACE': True})}}
         ops.append(op)
+    else:
+        for d in ids[:rng.randint(1, 3)]:
+            op = {'op': 'run_obj', 'dt': d, 'verbose': rng.choice([0, 0, 1, 3]),
+                  'on_error': rng.choice(['return', 'return', 'raise'])}
+            if defaults:
+                op['config'] = {'default_runtime_state': defaults}
+            ops.append(op)
     plan = []
     execs = common.predicted_execs(world, ops)
     used = set()
